@@ -641,6 +641,42 @@ func (e *Engine) intrinsic(st *State, fn *ssa.Function, args []Value, ci ssa.Val
 		st.hashBuf[id] = nil
 		e.finish(st, ci, &Iface{T: types.NewPointer(dt), V: &Ptr{Obj: id}}, fd)
 		return true
+	case "hash/crc32.MakeTable":
+		// an opaque table object that remembers its polynomial
+		id := st.alloc(&Array{E: []Value{args[0]}})
+		e.finish(st, ci, &Ptr{Obj: id}, fd)
+		return true
+	case "hash/crc32.Update", "hash/crc32.Checksum":
+		var crc *Term
+		var tab *Ptr
+		var sl *Slice
+		if name == "hash/crc32.Update" {
+			crc, tab, sl = args[0].(*Term), args[1].(*Ptr), args[2].(*Slice)
+		} else {
+			crc, sl, tab = Const(32, 0), args[0].(*Slice), args[1].(*Ptr)
+		}
+		poly := uint64(crc32.IEEE)
+		known := false
+		if tab != nil && tab.Obj != 0 {
+			if a, ok := st.heap[tab.Obj].(*Array); ok && len(a.E) == 1 {
+				if t, ok := a.E[0].(*Term); ok && t.IsConst() {
+					poly, known = t.C, true
+				}
+			}
+		}
+		if !known {
+			panic(unsupported("crc32 table of unknown origin (package not initialised?)"))
+		}
+		if b, ok := e.concreteBytes(st, sl); ok && crc.IsConst() {
+			e.finish(st, ci, Const(32, uint64(crc32.Update(uint32(crc.C), crc32.MakeTable(uint32(poly)), b))), fd)
+			return true
+		}
+		ts := []*Term{crc}
+		for _, v := range e.sliceElems(st, sl) {
+			ts = append(ts, v.(*Term))
+		}
+		e.finish(st, ci, UF(fmt.Sprintf("crc32p%x_%d", poly, len(ts)), 32, ts...), fd)
+		return true
 	case "(*hash/crc32.digest).Reset":
 		st.hashBuf[args[0].(*Ptr).Obj] = nil
 		e.finish(st, ci, nil, fd)
